@@ -310,6 +310,16 @@ def kani_c03(prop, tier, seed):
     ], prop)(prop, tier, seed)
 
 
+KANI_U1_PULL = [
+    {'name': 'validator::cbor_value::verif_kani::pull_matches_assumed_contract', 'kind': 'complete',
+     'label': 'ciborium-ll:pull-equals-assumed-contract', 'file': '~/.cargo/registry/.../ciborium-ll-0.2.2/src/dec.rs',
+     'functions': ['ciborium_ll::Decoder::pull'],
+     'clause': 'for every 9 bytes and every length <= 9: the REAL Decoder::pull returns hdr_of(head(bytes)) and consumes head.len bytes, Err for truncated / reserved heads and for additional information 31 on major types 0, 1, 6'},
+    {'name': 'validator::cbor_value::verif_kani::push_then_pull_returns_the_header', 'kind': 'complete',
+     'label': 'ciborium-ll:push-then-pull-roundtrip', 'functions': ['ciborium_ll::Decoder::push', 'ciborium_ll::Decoder::pull'],
+     'clause': 'pull after push returns the pushed header (non-float) and leaves the offset unchanged'},
+]
+
 KANI_U2 = [
     {'name': 'pest_bridge::verif_kani::u64_hex', 'kind': 'bounded', 'bound': '"0x" + <= 17 hex digits (complete in value: every u64, first overflowing length)',
      'label': 'parse_u64_lit:equals-rfc-value:hex', 'functions': ['parse_u64_lit'], 'file': 'src/pest_bridge.rs',
@@ -470,10 +480,11 @@ PROPS = {
     },
     'C11': {
         'vx': ['U1'],
+        'extra': [kani.part(KANI_U1_PULL, 'C11')],
         'witness': witness_u1,
         'technique': 'Verus function contracts + loop invariants + unfolding lemmas on the real decoder functions (mechanical extraction, real ciborium types), against an RFC 8949 spec function; assumed contract for ciborium-ll Decoder',
         'level_text': 'Deductive proof (Verus/Z3, no bound on input length, nesting or loop iterations) that decode_cbor returns Ok exactly when the input begins with a well-formed RFC 8949 item whose text strings are valid UTF-8 (truncation, reserved additional information 28-30, 31 on major types 0/1/6, stray break, wrong-type or indefinite chunks => Err) and that the returned Value is the item data-model value (full 64-bit uint/nint range, floats as delivered by the head, tags, simple values, concatenated chunks, arrays/maps in encoded order with duplicates kept). All seven functions decode_cbor, decode_value, read_exact_len, read_bytes, read_text, decode_array, decode_map are under contract; termination is proved. One RFC rule (two-byte simple values < 32 are not well-formed) is not implemented by the crate: known finding F2; the proof is against the spec with exactly that rule removed and the strict clause is kept as a failing, labelled obligation.',
-        'level_note': 'Trusted: Verus+Z3; vstd specs of Vec/String/Box; ASSUMED contracts (listed in evidence.trusted_base): ciborium-ll Decoder::pull/push/offset/read_exact over an in-memory byte source (pull = RFC head parse mapped to Header), Decoder::from, Cursor::new, Header == Break, ciborium Integer::from(u64/i64)/try_from(i128), String::from_utf8 (Ok <=> valid UTF-8), UTF-8 encoding distributes over concatenation, 64-bit usize, half/f32->f64 widening inside pull (uninterpreted). Extraction rewrites R1 (closure/for `_` names), R2 (map_err inlined to match), R3, R4 (simple::* constants re-declared and pinned by static assertions). Stack depth of the recursion is not modelled.',
+        'level_note': 'Trusted: Verus+Z3; vstd specs of Vec/String/Box; ASSUMED contracts (listed in evidence.trusted_base): ciborium-ll Decoder::pull/push/offset/read_exact over an in-memory byte source (pull = RFC head parse mapped to Header - this one is CROSS-CHECKED on every run by a complete Kani harness that executes the real ciborium-ll 0.2.2 pull/push on 9 symbolic bytes against an executable transcription of the spec head/hdr_of; the transcription Verus spec <-> Rust twin is by hand), Decoder::from, Cursor::new, Header == Break, ciborium Integer::from(u64/i64)/try_from(i128), String::from_utf8 (Ok <=> valid UTF-8), UTF-8 encoding distributes over concatenation, 64-bit usize, half/f32->f64 widening inside pull (uninterpreted). Extraction rewrites R1 (closure/for `_` names), R2 (map_err inlined to match), R3, R4 (simple::* constants re-declared and pinned by static assertions). Stack depth of the recursion is not modelled.',
         'design_ref': 'DESIGN.md 4 U1',
         'scope': 'decode_cbor and the six functions below it in src/validator/cbor_value.rs',
         'assumptions': ['the reader behind the Decoder is an in-memory byte source (std::io::Cursor<&[u8]>, the only instantiation in the crate)'],
